@@ -1,0 +1,9 @@
+//go:build verif
+
+package complexity
+
+// SafeAddForVerif exports safeAdd to the verification harness (/verif, property C14).
+func SafeAddForVerif(a, b int) int { return safeAdd(a, b) }
+
+// MaxIntForVerif exports the maxInt constant to the verification harness.
+const MaxIntForVerif = maxInt
